@@ -76,17 +76,26 @@ def run_task(task):
     u, s2 = upd({"w": jnp.asarray(alpha[ev])}, s, params)
     return u, s2
 
-  def ref_step(gamma, ev):
+  w1 = (1.0 - b1) if b1 != 1.0 else 1.0
+
+  def ref_step(ref, ev):
+    """ref[0]: exact decayed second moment; ref[1]: the documented momentum
+    average of the magnitudes of diagonal AdaGrad/RMSProp's steps; ref[2]:
+    the same average of the signed steps (what rank-1 SM3 must equal)."""
+    gamma = ref[0]
     g = alpha[ev].astype(np.float64)
     if norm:
       g = g / (np.linalg.norm(g) + 1e-16)
     g2 = b2 * gamma + w * g * g
-    return g, g2
+    ada = g / np.sqrt(g2 + eps)
+    return g, np.stack([g2, b1 * ref[1] + w1 * np.abs(ada),
+                        b1 * ref[2] + w1 * ada])
 
   def canon(s, gamma):
     return tree_hash(s, gamma.tobytes())
 
-  def check(hist, s, ev, out, s2, gamma, g, gamma2):
+  def check(hist, s, ev, out, s2, ref, g, ref2):
+    gamma2 = ref2[0]
     accs = [np.asarray(a, np.float64) for a in s2.stats["w"].diagonal_statistics]
     old = [np.asarray(a) for a in s.stats["w"].diagonal_statistics]
     new32 = [np.asarray(a) for a in s2.stats["w"].diagonal_statistics]
@@ -135,9 +144,32 @@ def run_task(task):
                       "diagonal AdaGrad/RMSProp", case)
       else:
         acc.outcome("step_ok")
+    else:
+      # with momentum the emitted step is the moving average of the
+      # preconditioned gradients, so it is bounded by the same average of
+      # diagonal AdaGrad/RMSProp's steps (rank 1: equal to it).  The stored
+      # momentum is int8-quantized (half a bucket = 0.4% of the column
+      # maximum per step), hence the 3% allowance.
+      u = np.asarray(out["w"], np.float64)
+      pre = -u / lr - wd * p64
+      slack = 0.03 * max(float(np.max(ref2[1])), 1e-30)
+      if not np.all(np.abs(pre) <= ref2[1] + slack):
+        i = int(np.argmax(np.abs(pre) - ref2[1]))
+        acc.outcome("viol_step_bound_momentum")
+        acc.violation(sig + "|mstep", "|SM3 step with momentum| %.9g exceeds "
+                      "the momentum average of diagonal AdaGrad/RMSProp's "
+                      "steps %.9g at flat index %d" %
+                      (abs(pre.flat[i]), ref2[1].flat[i], i), case)
+      elif rank == 1 and not np.all(np.abs(pre - ref2[2]) <= slack):
+        acc.outcome("viol_rank1_equal_momentum")
+        acc.violation(sig + "|mrank1", "rank-1 SM3 step with momentum "
+                      "differs from diagonal AdaGrad/RMSProp with the same "
+                      "momentum", case)
+      else:
+        acc.outcome("momentum_step_ok")
     acc.sample(dict(case, cover_min=float(cover.min()),
                     exact_max=float(gamma2.max())))
 
-  bfs(acc, s0, np.zeros(sh, np.float64), names, task["depth"], step, ref_step,
+  bfs(acc, s0, np.zeros((3,) + sh, np.float64), names, task["depth"], step, ref_step,
       check, canon, task=task)
   return acc.result()
